@@ -1,5 +1,5 @@
 PROP = {
-    "thm": "Umya.Thm.C07",
+    "thm": ["Umya.Thm.C07", "Umya.Thm.C07Move"],
     "harness": "c07",
     "level": "proof",
     "stateful": True,
@@ -7,16 +7,30 @@ PROP = {
                   "concrete cell store commutes with the reference grid edit through the abstraction `content` (C07_insert_rows/cols, C07_remove_rows/cols), "
                   "remove is total for p >= 1 (no panic), produces no row/column 0, and undoes insert (C07_remove_undoes_insert_*); ranges follow the "
                   "reference interval including deletion inside the band and shrinking when straddling it (C07_range_*); a workbook-level edit leaves the "
-                  "other sheets' entries untouched (C07_other_sheets_untouched). All for unbounded sheets and positions. The model is tied to the code by "
+                  "other sheets' entries untouched (C07_other_sheets_untouched). move_range / copy_range: for every coherent sheet, every rectangle inside the grid and "
+                  "every offset whose image is inside the grid (overlapping source and destination included) the modelled move_or_copy_range (guard, collection by the "
+                  "merge scan, clean-up pass over every position of the rectangle and its image, paste by set_cell) does not panic, keeps coherence and commutes with "
+                  "the reference moveRect / copyRect of Spec/Grid.lean through the same abstraction (C07_move_refines, C07_copy_refines); the property's clauses are "
+                  "corollaries (C07_move_source_empty, C07_move_destination_exact, C07_copy_keeps_source, C07_move_elsewhere_unchanged, C07_move_copy_in_grid); row / column "
+                  "dimensions are kept in place, only appended to (C07_move_copy_dimensions_kept). All for unbounded sheets and positions. The model is tied to the code by "
                   "random multi-sheet histories with full dumps after every op, and the implementation is checked against an independent reference grid in the harness.",
     "level_note": "Trusted: Lean kernel + 3 standard axioms; the hand model as exercised by the correspondence stream; the harness' reference grid (oracle). "
-                  "move_range / copy_range, comments, conditional formats and the auto-filter are modelled and tied by correspondence + reference-grid oracle, "
-                  "their whole-sheet refinement statement is not a Lean theorem (the per-range kernel lemma is).",
+                  "Cell content is an opaque token (value, or formula text: move_or_copy_range clones the cell and set_obj assigns cell_value whole, no reference inside "
+                  "a moved formula is translated; the harness compares the formula text at the translated position character by character) plus a style token; "
+                  "hyperlinks travel with the cell in the code (set_obj) and are not in the model. "
+                  "Comments, conditional formats and the auto-filter under insert / remove are modelled and tied by correspondence + reference-grid oracle, "
+                  "their whole-sheet refinement statement is not a Lean theorem (the per-range kernel lemma is); move_range / copy_range do not touch them "
+                  "(nor merged ranges): not a theorem, the model's move acts on the cell store only and the harness' reference compares the annotations after every move / copy.",
     "expect_theorems": ["C07_kernels_match_source", "C07_insert_rows", "C07_insert_cols", "C07_remove_rows", "C07_remove_cols", "C07_remove_undoes_insert_rows",
                         "C07_remove_undoes_insert_cols", "C07_remove_keeps_positive", "C07_range_insert_rows", "C07_range_remove_rows",
-                        "C07_range_remove_cols", "C07_other_sheets_untouched"],
+                        "C07_range_remove_cols", "C07_other_sheets_untouched",
+                        "C07_move_copy_are_steps", "C07_move_refines", "C07_copy_refines", "C07_move_source_empty", "C07_move_destination_exact",
+                        "C07_destination_is_image", "C07_copy_keeps_source", "C07_move_elsewhere_unchanged", "C07_move_copy_in_grid",
+                        "C07_move_copy_dimensions_kept"],
     "rule": "random histories (length 1..40 after seeding) on 1-3 sheets: workbook-level (by sheet name) and sheet-level insert/remove of rows/columns, "
-            "move_range, copy_range, set/remove cell, with merged ranges, comments, conditional formats (1-2 ranges), auto-filter, row/column dimensions; "
+            "move_range, copy_range (offsets -3..3, one in five pushed against row 1 / column 1 or, next to the limit, row 1048576 / column 16384; counters mc.* for "
+            "overlap / disjoint / zero offset, blank source position over an occupied destination cell, formula cells inside the rectangle, destination at a grid edge), "
+            "set/remove cell (one set_cell in four is a formula cell), with merged ranges, comments, conditional formats (1-2 ranges), auto-filter, row/column dimensions; "
             "positions 1..8 with bands covering whole objects / partially overlapping them, every tenth history next to the grid limit (XFD1048576), "
             "insert-then-remove pairs; after every op the dump of every sheet is compared with the model and with an independent reference grid. "
             "non-trivial = mutating op that returned; distinct = distinct request line",
@@ -24,7 +38,10 @@ PROP = {
                                  "std HashMap/BTreeSet semantics (modelled)", "VML note-box anchors of comments are not part of the model (their panic-freedom is checked by the harness only)"],
     "assumptions": ["p >= 1, n >= 1 (in-range arguments); coordinates below 2^32",
                     "ranges in merges/filters/conditional formats are full rectangles (both corners, both axes)"],
-    "partial_clauses": ["move_range/copy_range: correspondence + reference-grid oracle only (no Lean refinement theorem yet)",
+    "partial_clauses": ["move_range/copy_range: the refinement theorems are about the cell store (value / formula token and style token per position, row and column dimensions); "
+                        "hyperlinks of moved cells (carried by set_obj in the code) are outside the model; that merges, comments, conditional formats and the auto-filter are "
+                        "left alone by a move / copy is checked by the reference-grid oracle only; a blank position is one without a stored cell (a stored cell with empty value "
+                        "and default style counts as a cell and is moved / copied as such)",
                         "annotation lists (merges, comments, CF, filter): per-range theorem + correspondence; defined names and drawings under structural edits belong to C08 / are outside the model",
                         "grid upper bound: inserting next to the limit overflows the grid (known finding C07-grid-overflow; assessed after the formula-reference analogue was repaired in fae7c2b and left recorded: drop-vs-refuse is a design decision and the repair is not small, see why_not_fixed in known_findings.json)",
                         "Worksheet::*_from_other_sheet helpers still shift the sheet's own cells (outside the property's quantifier; not exercised)"],
